@@ -741,8 +741,9 @@ def search(ck, seeds=None):
 # =============================================================================================================
 # correspondence: real code vs the Coq model (exact ints)
 
-COQ_EXTRA = '''From Model Require Import PyHash Graph Morgan MorganFast Writer ChiralMorgan.
-From Proofs Require Import WriterInvProofs WriterStereoExt.
+COQ_EXTRA = '''From Model Require Import PyHash Graph Morgan MorganFast Stereo Writer ChiralMorgan.
+From Model Require Import StereoRegistry.
+From Proofs Require Import WriterInvProofs WriterStereoExt StereoProofs RegistryRemapExt.
 Import ListNotations.
 Open Scope Z_scope.
 Definition iadj_eqb (a b : iadj) : bool := list_eqb (pair_eqb Z.eqb (list_eqb (pair_eqb Z.eqb Z.eqb))) a b.
@@ -794,7 +795,9 @@ Definition stabs_eqb (a b : stabs) : bool :=
   list_eqb (pair_eqb Z.eqb Z.eqb) (t_ctcp a) (t_ctcp b).
 Definition sfun (f : list (Z * Z)) (n : Z) : Z := match zget f n with Some x => x | None => n end.
 Definition remap_ok (f : list (Z * Z)) (g g' : mol) (tabs tabs' : stabs) : bool :=
-  mol_eqb (ren_mol (sfun f) g) g' && stabs_eqb (ren_tabs (sfun f) tabs) tabs'.
+  mol_eqb (ren_mol (sfun f) g) g' && stabs_eqb (ren_tabs (sfun f) tabs) tabs' &&
+  (* the registries the registry model of C12 computes are the real ones (C01_smiles_invariant_discrete_remap_registries) *)
+  match registries_real g with Ok r => stabs_eqb (stabs_of_reg r) tabs | Err _ => false end.
 (* hypothesis of the insertion-order theorems: a renumbered and insertion-order shuffled molecule g' satisfies
    mol_perm (ren_mol s g) g' (decided here by sorting atoms, adjacency rows and neighbours by atom number) *)
 Definition norm_mol (g : mol) : mol :=
@@ -803,6 +806,12 @@ Definition norm_mol (g : mol) : mol :=
                (map (fun nl => (fst nl, isort (fun a b : Z * bond => fst a <=? fst b) (snd nl))) (m_adj g))).
 Definition perm_ok (f : list (Z * Z)) (g g' : mol) : bool :=
   mol_eqb (norm_mol (ren_mol (sfun f) g)) (norm_mol g') && wf_mol g && wf_mol g'.
+(* hypothesis stereo_atoms_reordered2 of the insertion-order theorems with tetrahedral marks: in a molecule rebuilt through
+   add_atom / add_bond / add_atom_stereo the registry of a labelled centre lists the renamed neighbours in the order `sel order q` and
+   the stored sign is the old one xor the parity of q (q ++ [3] for three listed neighbours) *)
+Definition reord_ok (three : bool) (q : list Z) (sg sg' : bool) : bool :=
+  if three then in_perms perms3 q && Bool.eqb sg' (xorb sg (odd_perm (q ++ [3])))
+  else in_perms perms4 q && Bool.eqb sg' (xorb sg (odd_perm q)).
 (* the Uint63 hash against the arbitrary-precision model of PyHash.v *)
 Definition h_ok (l : list Z) (v : Z) : bool := (hash63 l =? v) && (hash_ztuple l =? v).
 '''
@@ -1134,6 +1143,28 @@ def correspondence(ck):
                 continue
             if not n_stereo(m) or len(m) > 70:
                 continue
+            # a rebuilt copy (other insertion order, labels given through add_atom_stereo): registry order and stored sign
+            kk = m.copy()
+            try:
+                if any(int(bd) == 4 for *_, bd in kk.bonds()):
+                    kk.kekule()
+                new, fmap, complete = rebuild(kk, rng)
+            except Exception:
+                complete = False
+            if complete:
+                inv = {v: k for k, v in fmap.items()}
+                for n, a in kk._atoms.items():
+                    if a.stereo is None or n not in kk.stereogenic_tetrahedrons or fmap[n] not in new.stereogenic_tetrahedrons:
+                        continue
+                    order = list(kk.stereogenic_tetrahedrons[n])
+                    order2 = [inv[x] for x in new.stereogenic_tetrahedrons[fmap[n]]]
+                    if sorted(order) != sorted(order2) or new._atoms[fmap[n]].stereo is None:
+                        continue
+                    q = [order.index(x) for x in order2]
+                    cases.append(f'reord_ok {b(len(order) == 3)} {lst(q, zraw)} {b(a.stereo)} {b(new._atoms[fmap[n]].stereo)}')
+                    meta.append(('reordered-label', smi, n, q))
+                    ck.case(('corr-reord', smi, n, tuple(q)), nontrivial=q != sorted(q))
+                    ck.count('corr:reordered-label:' + ('identity' if q == sorted(q) else 'permuted'))
             v2 = corpus.renumber(m, rng)
             cases.append(f'remap_ok {zmap(dict(zip(m._atoms, v2._atoms)))} {mol_term(m)} {mol_term(v2)} {tabs_term(m)} {tabs_term(v2)}')
             meta.append(('remap-registries', smi))
@@ -1225,7 +1256,8 @@ def run(ck):
             where = {'raw': '_morgan on raw dicts', 'mol': 'hash(atom) / int_adjacency / atoms_order of molecules', 'hash': 'tuple hash model',
                      'writer-keys': 'start atom / first child of _smiles', 'chiral': '_chiral_morgan / __differentiation (weights, _morgan inputs)',
                      'remap-registries': 'remap() = ren_mol and its stereo registries = renamed registries',
-                     'insertion-order': 'renumbered + shuffled molecule is mol_perm of ren_mol, both well-formed', 'writer': 'canonical string and order of _smiles (writer model)'}
+                     'insertion-order': 'renumbered + shuffled molecule is mol_perm of ren_mol, both well-formed',
+                     'reordered-label': 'rebuilt molecule: stored tetrahedral sign = old sign xor parity of the registry re-ordering', 'writer': 'canonical string and order of _smiles (writer model)'}
             ck.unchecked('correspondence model vs implementation: ' + '; '.join(where.get(k, k) for k in kinds), log[-1500:],
                          [repr(x)[:400] for x in bad[:20]])
     ck.extra['proved'] = proved
